@@ -28,6 +28,7 @@ from ser import Ser, Ids, Unsupported, rat, env_text
 from props import c11 as R
 
 LEAN_MODULE = "Optyx.Props.C10"
+EXTRA_MODULES = ["Optyx.Props.PinsC10"]   # transcription anchors (harness/source_pins.py)
 THEOREMS = [
     "Optyx.Props.C10.mkConstraint_denote",
     "Optyx.Props.C10.mkConstraint_error_iff",
@@ -47,6 +48,7 @@ THEOREMS = [
     "Optyx.Props.Glue.makeConstraint_shape",
     "Optyx.Props.Glue.scipyConstraint_agrees",
     "Optyx.Props.Glue.conRow_table",
+    "Optyx.Props.PinsC10.anchors",
 ]
 ASSUMPTIONS = [
     "values are reals (ordered field); IEEE rounding of lhs - rhs is not modelled",
